@@ -157,8 +157,8 @@ class ExpandedTraceback:
         frames = list(tb_e.stack)
         # A SyntaxError has to be handled differently to actually get its output:
         # https://docs.python.org/3/library/traceback.html#traceback.print_exception
-        if isinstance(self.exception, SyntaxError):
-            offset = self.exception.offset
+        if isinstance(self.exception, SyntaxError) and self.exception.lineno is not None:
+            offset = self.exception.offset or 1
             if IS_AT_LEAST_PYTHON_310 and not IS_SKULPT:
                 end_lineno = self.exception.end_lineno
                 end_offset = offset if self.exception.end_offset not in {None, 0} else offset
